@@ -53,6 +53,7 @@ func init() {
 			ex.pools = map[*Cell][]Value{}
 		}
 		ex.pools[pool] = append(ex.pools[pool], a[1])
+		ex.note("sync.Pool.Put")
 		return nil
 	}
 	stdModels["(*sync.Pool).Get"] = func(ex *Exec, c *frame, fn *ssa.Function, a []Value) Value {
@@ -64,6 +65,7 @@ func init() {
 		if len(items) > 0 {
 			i := ex.chooseN("pool-get", len(items)+1)
 			if i < len(items) {
+				ex.note("sync.Pool.Get-reuses-pooled-object")
 				v := items[i]
 				ex.pools[pool] = append(append([]Value{}, items[:i]...), items[i+1:]...)
 				return v
